@@ -1153,6 +1153,28 @@ def rule_optclosure(ctx, sig, body, arg):
     return sig, body
 
 
+def rule_strlenempty(ctx, sig, body, arg):
+    """@rule strlenempty <ident> ..: for the named `&str` / `String` variables, `X.len() == 0` -> `X.is_empty()`, `X.len() > 0` / `X.len() != 0` /
+    `X.len() >= 1` -> `!X.is_empty()` (std: `str::is_empty` is defined as `self.len() == 0`).  vstd specifies `str::len` as the BYTE length, which it
+    does not relate to the character view; `is_empty` is specified on the view."""
+    n = 0
+    for ident in arg.split():
+        x = re.escape(ident)
+        for pat, rep in ((r'\b' + x + r'\.len\(\)\s*==\s*0\b', f'{ident}.is_empty()'),
+                         (r'\b0\s*==\s*' + x + r'\.len\(\)', f'{ident}.is_empty()'),
+                         (r'\b' + x + r'\.len\(\)\s*(?:>\s*0|!=\s*0|>=\s*1)\b', f'!{ident}.is_empty()'),
+                         (r'\b0\s*(?:<|!=)\s*' + x + r'\.len\(\)', f'!{ident}.is_empty()')):
+            for m in reversed(list(re.finditer(pat, body))):
+                if _in_comment_or_string(body, m.start()):
+                    continue
+                ctx.note('R-strlenempty', m.group(0), rep)
+                body = body[:m.start()] + rep + body[m.end():]
+                n += 1
+    if n == 0:
+        raise RuleError('no emptiness test through len()')
+    return sig, body
+
+
 def rule_mapcollect2(ctx, sig, body, arg):
     """@rule mapcollect2 <ElemType>: `let V = X .into_iter() .map(F) .collect::<Vec<_>>();` (F a function path, X a Vec of Copy items)
     -> `let mc__src = X; let mut V: Vec<ElemType> = Vec::new(); for mc__e in mc__src.iter() { V.push(F(*mc__e)); }`
